@@ -13,6 +13,7 @@ from .asttypes import (
     ASTS_LEAF_BLOCK,
     ASTS_LEAF_FTSTR,
     ASTS_LEAF_MOD,
+    ASTS_LEAF_STMTLIKE,
     AST,
     ExceptHandler,
     Match,
@@ -258,8 +259,16 @@ def _reparse_raw_stmtlike(self: fst.FST, new_lines: list[str], ln: int, col: int
         if is_elif:  # nuking a whole elif will parse but can do bad things to end positions
             stmtlike._set_end_pos((a := stmtlike.a).end_lineno, a.end_col_offset)  # setting own position to what it currently is but will also propagate up the tree
 
-        elif (parent := stmtlike.parent) and not stmtlike.next() and getattr(stmtlike.a, 'end_col_offset', None) is not None:  # if new source ends in trailing whitespace this was offset into parents which end at this statement, they end at the statement or its trailing semicolon
-            _, _, end_ln, end_col = stmtlike.loc
+        elif getattr(stmtlike.a, 'end_col_offset', None) is not None:  # if new source ends in trailing whitespace this was offset into parents which end at this statement, they end at the statement or its trailing semicolon, which may also follow the last statement of a reparsed block which was cut off for the reparse
+            last = stmtlike
+
+            while (child := last.last_child()) and child.a.__class__ in ASTS_LEAF_STMTLIKE:
+                last = child
+
+            if not (parent := last.parent) or (last is stmtlike and stmtlike.next()):
+                return True
+
+            _, _, end_ln, end_col = last.loc
             lines = root._lines
 
             if (frag := next_frag(lines, end_ln, end_col, len(lines) - 1, 0x7fffffffffffffff)) and frag.src.startswith(';'):
